@@ -4,6 +4,7 @@ import (
 	"context"
 	"math/big"
 	"math/rand"
+	"strings"
 	"sync"
 	"time"
 
@@ -29,9 +30,17 @@ import (
 //   init [client]                 TrafficInit() (the API entry of the periodic refresh)
 //   tick [client]                 the client sleeps until the node's next 24 h refresh fires
 //   barrier | restart             join + quiescence (+ clean restart)
+//   hsk  [peer, extra]            (separator, at quiescence) the peer reconnects and presents in the
+//                                 real init handshake a cheque of the node whose cumulative payout is
+//                                 `extra` above everything the node remembers (the node's state is
+//                                 older than the peer's); Service.Handshake adopts it
 // Faults:
 //   crash [k]                     every state-store write from the k-th of the workload on is
 //                                 lost; the next restart is then a restart after a crash
+//   werr  [kind, n]               transient fault: the n-th workload write of kind 0 consumed-total /
+//                                 1 served-total / 2 last-sent-cheque / 3 last-received-cheque fails
+//                                 with an error and is not applied; the failed call reports an error
+//                                 and its update counts as "maybe applied"
 // Params: envelope=1: the clients keep the locking discipline of the node's only
 // caller (pkg/accounting: Put* of one peer serialised, one Pay at a time);
 // envelope=0: free use of the exported API (classes get the suffix -freeapi).
@@ -52,13 +61,14 @@ func c33Gen(rng *rand.Rand, tier string) *gosim.Plan {
 	enInit := rng.Intn(100) < 45
 	enTick := rng.Intn(100) < 25
 	enPay := rng.Intn(100) < 75
+	enHsk := rng.Intn(100) < 30
 	b := func(v bool) int64 {
 		if v {
 			return 1
 		}
 		return 0
 	}
-	p.Params["en_init"], p.Params["en_tick"], p.Params["en_pay"] = b(enInit), b(enTick), b(enPay)
+	p.Params["en_init"], p.Params["en_tick"], p.Params["en_pay"], p.Params["en_hsk"] = b(enInit), b(enTick), b(enPay), b(enHsk)
 	nPhase := 1 + rng.Intn(4)
 	if tier == "thorough" {
 		nPhase += rng.Intn(4)
@@ -93,15 +103,60 @@ func c33Gen(rng *rand.Rand, tier string) *gosim.Plan {
 				}
 			}
 		}
+		if enHsk && rng.Intn(100) < 35 {
+			peer := hot
+			if rng.Intn(100) < 30 {
+				peer = int64(rng.Intn(n))
+			}
+			p.Ops = append(p.Ops, gosim.Op{K: "hsk", A: []int64{peer, 1 + rng.Int63n(80)}})
+			if rng.Intn(100) < 50 {
+				continue // more traffic before the next restart
+			}
+		}
 		if rng.Intn(100) < 35 {
 			p.Ops = append(p.Ops, gosim.Op{K: "restart"})
 		} else {
 			p.Ops = append(p.Ops, gosim.Op{K: "barrier"})
 		}
 	}
-	// 30 % of the runs: a crash point at a state-store write
-	if rng.Intn(100) < 30 {
+	// 25 % of the runs: a crash point at a state-store write; another 30 %: transient write errors
+	switch x := rng.Intn(100); {
+	case x < 25:
 		p.Faults = append(p.Faults, gosim.Op{K: "crash", A: []int64{int64(rng.Intn(3 * len(p.Ops)))}})
+	case x < 55:
+		cnt := map[string]int{}
+		for _, o := range p.Ops {
+			cnt[o.K]++
+		}
+		for f := 0; f < 1+rng.Intn(2); f++ {
+			kind := int64(0)
+			opk := "ret"
+			switch y := rng.Intn(100); {
+			case y < 55:
+			case y < 70:
+				kind, opk = 1, "tra"
+			case y < 90:
+				kind, opk = 2, "pay"
+			default:
+				kind, opk = 3, "rcv"
+			}
+			c := cnt[opk]
+			if c == 0 {
+				c = 1
+			}
+			nth := rng.Intn(c)
+			if rng.Intn(100) < 60 { // one of the last writes of that kind: nothing repairs it before the restart
+				nth = c - 1 - rng.Intn(3)
+				if nth < 0 {
+					nth = 0
+				}
+			}
+			p.Faults = append(p.Faults, gosim.Op{K: "werr", A: []int64{kind, int64(nth)}})
+			if kind == 0 && rng.Intn(100) < 60 {
+				// and a payment afterwards
+				p.Ops = append(p.Ops, gosim.Op{K: "pay", A: []int64{0, hot, 1}}, gosim.Op{K: "barrier"})
+			}
+		}
 	}
 	return p
 }
@@ -161,7 +216,20 @@ func c33Exec(r *gosim.Run) {
 	var payMu sync.Mutex            // envelope: the single settle goroutine
 	crashed := false                // a crash happened in this run: the model of acknowledged updates no longer applies
 
+	maybeRet := make([]int64, n)  // updates that reported an error: applied or not
+	maybeTra := make([]int64, n)
+	taintSent := make([]bool, n)  // a write of the last sent cheque failed: the store may be behind the peer
+	failSeen := 0
 	for _, f := range r.Plan.Faults {
+		if f.K == "werr" {
+			prefix := map[int64]string{0: "retrieved_traffic_", 1: "transferred_traffic_", 2: "traffic_last_send_cheque_", 3: "traffic_last_received_cheque_"}[f.Arg(0)]
+			if prefix == "" || f.Arg(1) < 0 {
+				continue
+			}
+			env.store.mu.Lock()
+			env.store.fails = append(env.store.fails, &c30WriteFail{prefix: prefix, nth: f.Arg(1)})
+			env.store.mu.Unlock()
+		}
 		if f.K == "crash" {
 			k := f.Arg(0)
 			if k < 0 {
@@ -217,7 +285,7 @@ func c33Exec(r *gosim.Run) {
 				cum := c.CumulativePayout.Int64()
 				r.Count("probe_cheque_delivered")
 				r.Logf("%s: peer %d holds new cheque payout=%d (consumed so far %d)", where, i, cum, invRet[i])
-				if !crashed {
+				if !crashed && !taintSent[i] {
 					for _, o := range got[:idx] {
 						if o.cheque.CumulativePayout.Cmp(c.CumulativePayout) == 0 {
 							r.Violate(cls("cheque-reissued"), "%s: peer %d received two cheques with the same cumulative payout %d: the second one was issued for an amount already paid", where, i, cum)
@@ -226,7 +294,7 @@ func c33Exec(r *gosim.Run) {
 					if cum > invRet[i] {
 						r.Violate(cls("overpaid"), "%s: peer %d received a cheque with cumulative payout %d, but the node consumed only %d of its traffic", where, i, cum, invRet[i])
 					}
-					if probe && cum <= heldBefore[i] {
+					if probe && !taintSent[i] && cum <= heldBefore[i] {
 						r.Violate(cls("repaid"), "%s: first cheque after the restart has cumulative payout %d, peer %d already holds %d", where, cum, i, heldBefore[i])
 					}
 				}
@@ -240,6 +308,15 @@ func c33Exec(r *gosim.Run) {
 
 	// at quiescence: nothing acknowledged is missing from the node's totals
 	checkTotals := func(where string, f []c33Fig) {
+		// traffic that has been paid for by cheque was consumed: the consumed total never
+		// falls below the cumulative payout of the cheques sent (else the next units
+		// consumed from that peer would never be paid)
+		for i := range f {
+			if f[i].ret.Cmp(f[i].sentSet) < 0 {
+				r.Violate(cls("total-forgotten"), "%s: peer %d: recorded consumed traffic is %s, but cheques for %s have been sent to it: consumed traffic that was already paid for is forgotten (unpaid balance %s)",
+					where, i, f[i].ret, f[i].sentSet, new(big.Int).Sub(f[i].ret, f[i].sentSet))
+			}
+		}
 		if crashed {
 			return
 		}
@@ -255,6 +332,14 @@ func c33Exec(r *gosim.Run) {
 
 	restart := func(where string) {
 		pre := figures(node)
+		for i := range pre {
+			if pre[i].sentChq.Cmp(pre[i].ret) > 0 || pre[i].sentSet.Cmp(big.NewInt(0)) > 0 {
+				stored, _ := node.cs.GetRetrieveTraffic(env.peers[i].addr)
+				if stored != nil && pre[i].sentChq.Cmp(stored) > 0 {
+					r.Count("probe_cheque_ahead_of_stored_total")
+				}
+			}
+		}
 		env.store.mu.Lock()
 		wasCrash := env.store.lost > 0
 		env.store.crashAt = -1
@@ -317,11 +402,14 @@ func c33Exec(r *gosim.Run) {
 				continue
 			}
 			// clean restart: at least the values before the restart
-			ge("consumed traffic total", post[i].ret, "before the restart", pre[i].ret, cls("total-forgotten"))
-			ge("served traffic total", post[i].tra, "before the restart", pre[i].tra, cls("total-forgotten"))
+			// (an update that reported an error may or may not be part of the total)
+			ge("consumed traffic total", post[i].ret, "before the restart (minus updates that reported an error)", new(big.Int).Sub(pre[i].ret, big.NewInt(maybeRet[i])), cls("total-forgotten"))
+			ge("served traffic total", post[i].tra, "before the restart (minus updates that reported an error)", new(big.Int).Sub(pre[i].tra, big.NewInt(maybeTra[i])), cls("total-forgotten"))
 			ge("last sent cheque amount", post[i].sentChq, "before the restart", pre[i].sentChq, cls("cheque-forgotten"))
 			ge("last received cheque amount", post[i].rcvChq, "before the restart", pre[i].rcvChq, cls("cheque-forgotten"))
-			ge("sent settlements", post[i].sentSet, "before the restart", pre[i].sentSet, cls("cheque-forgotten"))
+			if !taintSent[i] {
+				ge("sent settlements", post[i].sentSet, "before the restart", pre[i].sentSet, cls("cheque-forgotten"))
+			}
 			ge("received settlements", post[i].rcvSet, "before the restart", pre[i].rcvSet, cls("cheque-forgotten"))
 		}
 		checkTotals(where+" (after restart)", post)
@@ -355,7 +443,67 @@ func c33Exec(r *gosim.Run) {
 		return time.Duration(k)*24*time.Hour - el
 	}
 
-	c30Phases(r, r.Plan.Ops, func(o gosim.Op) bool { return o.K == "restart" }, func(phase int, o gosim.Op) {
+	setFail := func(on bool) {
+		env.store.mu.Lock()
+		env.store.failOn = on
+		env.store.mu.Unlock()
+	}
+	// which peers' sent-cheque records may be behind because a write failed
+	noteFailures := func() {
+		env.store.mu.Lock()
+		failed := append([]string(nil), env.store.failed[failSeen:]...)
+		failSeen = len(env.store.failed)
+		env.store.mu.Unlock()
+		for _, k := range failed {
+			r.Logf("write failed: %s", k)
+			if !strings.HasPrefix(k, "traffic_last_send_cheque_") {
+				continue
+			}
+			for i, p := range env.peers {
+				if strings.HasSuffix(strings.ToLower(k), strings.ToLower(p.addr.Hex()[2:])) {
+					taintSent[i] = true
+				}
+			}
+		}
+	}
+	handshake := func(o *gosim.Op) {
+		pi := int(o.Arg(0))
+		if pi < 0 {
+			pi = -pi
+		}
+		pi %= n
+		peer := env.peers[pi]
+		extra := o.Arg(1)
+		if extra < 1 {
+			extra = 1
+		}
+		// a cheque the node signed in the part of its history it no longer remembers
+		top := held[pi]
+		if c, err := node.svc.LastSentCheque(peer.overlay); err == nil && c != nil && c.CumulativePayout != nil && c.CumulativePayout.Int64() > top {
+			top = c.CumulativePayout.Int64()
+		}
+		cum := top + extra
+		ch := env.self.sign(peer.addr, self, cum)
+		peer.tr.mu.Lock()
+		peer.tr.last = ch
+		peer.tr.mu.Unlock()
+		if cum > invRet[pi] {
+			invRet[pi] = cum // that traffic was consumed (and paid) back then
+		}
+		held[pi] = cum
+		var err error
+		c30Guard(r, "handshake", func() { err = node.register(peer) })
+		gosim.Idle()
+		r.Logf("hsk peer=%d presents cheque %d -> %v", pi, cum, err)
+		r.Count("probe_handshake_adopts_cheque")
+		f := figures(node)
+		if f[pi].sentChq.Cmp(big.NewInt(cum)) != 0 {
+			r.Logf("hsk: cheque not adopted (last sent %s)", f[pi].sentChq)
+		}
+		checkTotals("after handshake", f)
+	}
+	setFail(true)
+	c30Phases(r, r.Plan.Ops, func(o gosim.Op) bool { return o.K == "restart" || o.K == "hsk" }, func(phase int, o gosim.Op) {
 		pi := int(o.Arg(1))
 		if pi < 0 {
 			pi = -pi
@@ -378,11 +526,13 @@ func c33Exec(r *gosim.Run) {
 			var err error
 			c30Guard(r, "PutRetrieveTraffic", func() { err = node.svc.PutRetrieveTraffic(peer.overlay, big.NewInt(amt)) })
 			r.Logf("ret peer=%d +%d -> %v", pi, amt, err)
+			mu.Lock()
 			if err == nil {
-				mu.Lock()
 				ackRet[pi] += amt
-				mu.Unlock()
+			} else {
+				maybeRet[pi] += amt
 			}
+			mu.Unlock()
 		case "tra":
 			if envelope {
 				peerMu[pi].Lock()
@@ -391,11 +541,13 @@ func c33Exec(r *gosim.Run) {
 			var err error
 			c30Guard(r, "PutTransferTraffic", func() { err = node.svc.PutTransferTraffic(peer.overlay, big.NewInt(amt)) })
 			r.Logf("tra peer=%d +%d -> %v", pi, amt, err)
+			mu.Lock()
 			if err == nil {
-				mu.Lock()
 				ackTra[pi] += amt
-				mu.Unlock()
+			} else {
+				maybeTra[pi] += amt
 			}
+			mu.Unlock()
 		case "pay":
 			if envelope {
 				payMu.Lock()
@@ -432,6 +584,8 @@ func c33Exec(r *gosim.Run) {
 			r.Logf("tick")
 		}
 	}, func(phase int, s *gosim.Op) {
+		setFail(false)
+		noteFailures()
 		env.store.mu.Lock()
 		if env.store.lost > 0 {
 			crashed = true
@@ -442,7 +596,12 @@ func c33Exec(r *gosim.Run) {
 		if s != nil && s.K == "restart" {
 			restart("restart")
 		}
+		if s != nil && s.K == "hsk" {
+			handshake(s)
+		}
+		setFail(true)
 	})
+	setFail(false)
 	restart("final restart")
 }
 
